@@ -679,6 +679,81 @@ func genProcCase(t *Tape, c01only bool) *ProcCase {
 	return c
 }
 
+// genProcStreamCase: the value-stream property at the process boundary. Named
+// files and stdin holding streams of every shape (in particular streams whose
+// last value is a bare scalar with nothing after it), with the defects of the
+// stream world applied to the file contents; the library on the same bytes is
+// the oracle for stdout and outcome.
+func genProcStreamCase(t *Tape) *ProcCase {
+	c := &ProcCase{}
+	g := &streamGen{t: t}
+	g.profile = t.Weighted(3, 3, 2, 2)
+	g.rich = t.Chance(1, 4)
+	sc := genStreamCase(t, streamGenOpts{mode: "c03", maxFiles: 0, maxVals: 0, sigProb: 10})
+	c.Prog = sc.ProgText
+	mk := func() QBytes {
+		d := g.fileText(1 + t.Draw(4))
+		switch t.Weighted(3, 3, 1) {
+		case 0:
+			// nothing after the last value
+			d = bytes.TrimRight(d, " \t\r\n")
+		case 1:
+			d = append(bytes.TrimRight(d, " \t\r\n"), []byte(" "+g.scalarText())...)
+		}
+		return QBytes(d)
+	}
+	if t.Chance(1, 4) {
+		c.Stdin = mk()
+	} else {
+		n := 1 + t.Draw(3)
+		for i := 0; i < n; i++ {
+			c.Inputs = append(c.Inputs, ProcFile{Name: fmt.Sprintf("s%d.json", i), Data: mk(), Kind: "regular"})
+		}
+	}
+	// a defect in one of the streams
+	if t.Chance(1, 2) {
+		target := &c.Stdin
+		if len(c.Inputs) > 0 {
+			target = &c.Inputs[t.Draw(len(c.Inputs))].Data
+		}
+		d := []byte(*target)
+		if len(d) > 0 {
+			off := t.Draw(len(d) + 1)
+			switch t.Weighted(3, 2, 2) {
+			case 0:
+				d = d[:off]
+			case 1:
+				txt := strayTexts[t.Draw(len(strayTexts))]
+				if !strings.Contains(txt, "\x00") {
+					d = append(append(append([]byte{}, d[:off]...), txt...), d[off:]...)
+				}
+			default:
+				if off < len(d) {
+					d = append([]byte{}, d...)
+					d[off] = corruptBytes[t.Draw(len(corruptBytes))]
+				}
+			}
+			*target = QBytes(d)
+		}
+	}
+	if t.Chance(1, 6) && len(c.Inputs) <= 1 {
+		c.OMode = []string{"-", "file"}[t.Draw(2)]
+	}
+	c.ViaF = t.Chance(1, 5)
+	return c
+}
+
+func procStreamWorkload(name string, count map[string]int) *Workload {
+	return &Workload{
+		Name:     name,
+		Count:    func(tier string) int { return count[tier] },
+		Gen:      func(i int, t *Tape, tier string) any { return genProcStreamCase(t) },
+		Run:      func(c any, keep bool) Outcome { return runProcCase(c.(*ProcCase), keep, false) },
+		New:      func() any { return &ProcCase{} },
+		Simplify: simplifyProc,
+	}
+}
+
 func procWorkload(name string, count map[string]int, c01only bool) *Workload {
 	return &Workload{
 		Name:     name,
